@@ -138,6 +138,9 @@ Inductive reason :=
 | RHeaderDefaults      (* webhooks service: defaults written through http.Header canonical names from engine configuration *)
 | RKeySelected         (* jsonpath.visit: `k == selector` selects at most one key; the wildcard branch writes by the key *)
 | RKeyPartitioned      (* every iteration reads and writes only dst[k] for its own key k *)
+| RKnownFinding (cls : string)   (* order-DEPENDENT, in a dependency outside the goflow module: recorded in KNOWN_FINDINGS.txt under
+                          this class; the determinism driver carries a probe that reports it on every run *)
+| RCanonicalKeyWrite   (* dst.Set(canonical(k), v): BuildMap through a key transformer; invariant when it is injective on the keys *)
 | RPureCalleeReviewed  (* a value-position callee the call summary cannot clear (interface dispatch over-approximated by method
                           name, parser outside the module) was reviewed: its result is a function of its arguments and it writes
                           nothing that outlives the call; the body is then an accepted body *).
